@@ -64,9 +64,11 @@ macro_rules! step_tc {
         #[cfg_attr(kani, kani::unwind(90))]
         #[cfg_attr(kani, kani::stub(chrono::Utc::now, crate::verif::rt::stub_now))]
         #[cfg_attr(kani, kani::stub(crate::decoder::get_downlink_format, super::rows::stub_get_df))]
+        #[cfg_attr(kani, kani::stub(crate::decoder::adsb::icao::get_icao, super::rows::stub_get_icao))]
         #[cfg_attr(kani, kani::stub(crate::decoder::utils::get_message_type, super::rows::stub_get_tc))]
         #[cfg_attr(kani, kani::stub(crate::decoder::adsb::ais::ais, super::rows::stub_ais))]
         #[cfg_attr(kani, kani::stub(crate::decoder::adsb::position::cpr_location, super::rows::stub_cpr_location))]
+        #[cfg_attr(kani, kani::stub(crate::decoder::adsb::position::cpr, super::rows::stub_cpr))]
         #[cfg_attr(kani, kani::stub(f64::atan2, super::c09::stub_atan2))]
         #[cfg_attr(kani, kani::stub(f64::sqrt, super::c09::stub_sqrt))]
         #[cfg_attr(kani, kani::stub(f64::powi, super::c09::stub_powi))]
@@ -75,17 +77,32 @@ macro_rules! step_tc {
             let m = frame28();
             pin_df(&m, $df);
             pin_tc(&m, $tc);
-            let relaxed = any_bool();
-            let use_update = any_bool();
-            super::c09::draw_libm();
-            let Some((df, icao)) = accepted(&m) else { return };
-            let fresh = create(&m, df, icao);
-            let mut p = any_row();
-            p.icao = icao;
-            apply(&mut p, &m, df, use_update, relaxed);
-            vcover!(use_update, "-U");
-            vcover!(!use_update, "default path");
-            vassert!(fresh.icao == icao && p.icao == icao, "C01: row address changed");
+            // position squitters (TC 5-18) write a CPR slot: decide each parity with a constant index
+            if $tc >= 5 && $tc <= 18 {
+                if bit(&m, 54) == 0 {
+                    unsafe { PIN_F = 0 };
+                    go(&m);
+                } else {
+                    unsafe { PIN_F = 1 };
+                    go(&m);
+                }
+            } else {
+                go(&m);
+            }
+            fn go(m: &[u32; 28]) {
+                let m = *m;
+                let relaxed = any_bool();
+                let use_update = any_bool();
+                super::c09::draw_libm();
+                let Some((df, icao)) = accepted(&m) else { return };
+                let fresh = create(&m, df, icao);
+                let mut p = any_row();
+                p.icao = icao;
+                apply(&mut p, &m, df, use_update, relaxed);
+                vcover!(use_update, "-U");
+                vcover!(!use_update, "default path");
+                vassert!(fresh.icao == icao && p.icao == icao, "C01: row address changed");
+            }
         }
     };
 }
@@ -165,6 +182,7 @@ macro_rules! step_long_df {
         #[cfg_attr(kani, kani::unwind(90))]
         #[cfg_attr(kani, kani::stub(chrono::Utc::now, crate::verif::rt::stub_now))]
         #[cfg_attr(kani, kani::stub(crate::decoder::get_downlink_format, super::rows::stub_get_df))]
+        #[cfg_attr(kani, kani::stub(crate::decoder::adsb::icao::get_icao, super::rows::stub_get_icao))]
         #[cfg_attr(kani, kani::stub(crate::decoder::adsb::ais::ais, super::rows::stub_ais))]
         #[cfg_attr(verif_replay, test)]
         fn $name() {
